@@ -131,9 +131,12 @@ def run(tier: str, seed: int, reg: Any, jobs: int = 16) -> list:
             parts = [1, 2, 3]
             parts[pos] = num
             v = BcdVersion3(*parts)
-            w = BcdVersion3.from_str(str(v))
-            if w.nums != v.nums and len(fails) < 3:
-                fails.append({"inputs": {"version": parts}, "detail": f"from_str(str(v)) = {w.nums} != {v.nums}",
+            try:
+                got: Any = BcdVersion3.from_str(str(v)).nums
+            except Exception as e:  # pylint: disable=broad-except
+                got = f"{type(e).__name__}: {e}"
+            if got != v.nums and len(fails) < 3:
+                fails.append({"inputs": {"version": str(v)}, "detail": f"from_str(str(v)) = {got} != {v.nums}",
                               "obligation": "BcdVersion3#str-roundtrip"})
     # and every non-BCD value in [0, 0xFFFF] + the two out-of-range neighbours is rejected
     for num in list(range(-2, 0x10002)):
